@@ -9,7 +9,7 @@
 From H3V Require Import Base.Bytes Base.BytesLemmas Spec.RFC9114Wire Model.HttpCrate Model.Headers Spec.WellFormed
   Proofs.HeadersProofs Model.EndToEnd Spec.EndToEndSpec Model.EndToEndLayers Proofs.EndToEndProofs
   Proofs.EndToEndHeaders Proofs.EndToEndWire Spec.EndToEndStream Proofs.EndToEndFrames
-  Model.EndToEndRef Proofs.EndToEndRefProofs Proofs.EndToEndReader.
+  Model.EndToEndRef Proofs.EndToEndMerge Proofs.EndToEndRefProofs Proofs.EndToEndReader Proofs.EndToEndQpack Proofs.EndToEndC03.
 
 
 (* the messages the theorems speak about: what an application can build with the `http` crate
@@ -50,15 +50,15 @@ Proof.
   intros f Hf. destruct f; cbn [sframe_ok payload_ok] in *; try apply Hf.
 Qed.
 
-Lemma frames_law hb pieces tb g :
+Lemma frames_law sc hb pieces tb g :
   block_ok hb -> Forall block_ok pieces -> match tb with Some b => block_ok b | None => True end ->
   match g with Some x => x < 148764065110560899 | None => True end ->
-  rfc_stream_reading (concat (map rfc_frame_bytes (SHeaders hb :: map SData pieces ++
+  rfc_stream_reading_with sc (concat (map rfc_frame_bytes (SHeaders hb :: map SData pieces ++
       match tb with Some b => [SHeaders b] | None => [] end ++
       match g with Some x => [SGrease x] | None => [] end)))
   = RFirst hb :: flush_items (concat pieces) ++ [RDataEnd; RTrailers tb].
 Proof.
-  intros Hb Hp Ht Hg. apply request_stream_reading_of_layout.
+  intros Hb Hp Ht Hg. apply request_stream_reading_of_layout_with.
   - apply Hb.
   - eapply Forall_impl; [|exact Hp]. intros a Ha. apply Ha.
   - destruct tb; [apply Ht|exact I].
@@ -76,6 +76,8 @@ Proof.
 Qed.
 
 Section Remaining.
+  (* the verdict on SETTINGS payloads used by the frame reader (irrelevant on request streams, see Spec/EndToEndStream.v) *)
+  Variable sc : bytes -> option FrameVocab.settings_err.
   (* C11 *)
   Variable encode_section : fieldl -> option bytes.
   Variable decode_section : bytes -> option fieldl.
@@ -89,8 +91,8 @@ Section Remaining.
 
   Hypothesis H_section : forall fs b, fields_ok fs -> encode_section fs = Some b -> block_ok b /\ decode_section b = Some fs.
   Hypothesis H_read : forall h items s, hist_ok h = true -> rx_run rstate r_arrive r_fin r_poll h r_init = (items, s) ->
-    r_done s = true -> wf_bytes (hist_flat h) -> no_fail (rfc_stream_reading (hist_flat h)) ->
-    merge_items [] items = rfc_stream_reading (hist_flat h).
+    r_done s = true -> wf_bytes (hist_flat h) -> no_fail (rfc_stream_reading_with sc (hist_flat h)) ->
+    merge_items [] items = rfc_stream_reading_with sc (hist_flat h).
 
   Theorem request_fidelity :
     forall (grease : option N) (m : message c12_request hmap) (ks : list N) (b : bytes) (h : list hevent) items s,
@@ -107,14 +109,14 @@ Section Remaining.
     apply (e2e_fidelity_generic c12_request request hmap hmap c12_fields_of_request c12_request_of_fields
              c12_fields_of_trailers c12_trailers_of_fields encode_section decode_section c14_wire_write
              rstate r_init r_arrive r_fin r_poll r_done c12_norm_request (fun t => t)
-             request_head_ok trailers_ok fields_ok block_ok rfc_frame_bytes rfc_stream_reading).
+             request_head_ok trailers_ok fields_ok block_ok rfc_frame_bytes (rfc_stream_reading_with sc)).
     - exact head_law_request.
     - exact trailers_law.
     - exact H_section.
     - exact write_law.
     - exact H_read.
     - exact frame_wf_law.
-    - exact frames_law.
+    - exact (frames_law sc).
   Qed.
 
   Theorem response_fidelity :
@@ -133,14 +135,14 @@ Section Remaining.
              c12_fields_of_trailers c12_trailers_of_fields encode_section decode_section c14_wire_write
              rstate r_init r_arrive r_fin r_poll r_done
              (fun p => {| rs_status := cp_status p; rs_headers := cp_fields p |}) (fun t => t)
-             response_head_ok trailers_ok fields_ok block_ok rfc_frame_bytes rfc_stream_reading).
+             response_head_ok trailers_ok fields_ok block_ok rfc_frame_bytes (rfc_stream_reading_with sc)).
     - exact head_law_response.
     - exact trailers_law.
     - exact H_section.
     - exact write_law.
     - exact H_read.
     - exact frame_wf_law.
-    - exact frames_law.
+    - exact (frames_law sc).
   Qed.
 End Remaining.
 
@@ -158,7 +160,7 @@ Theorem request_fidelity_store_and_forward :
                      sfstate sf_init sf_arrive sf_finish sf_poll h
     = expected_events c12_norm_request (fun t : hmap => t) m.
 Proof.
-  exact (request_fidelity ref_encode_section ref_decode_section sfstate sf_init sf_arrive sf_finish sf_poll sf_done
+  exact (request_fidelity no_settings_check ref_encode_section ref_decode_section sfstate sf_init sf_arrive sf_finish sf_poll sf_done
            ref_section_roundtrip (fun h items s Hok Hrun Hd _ _ => sf_reader_law h items s Hok Hrun Hd)).
 Qed.
 
@@ -174,7 +176,7 @@ Theorem response_fidelity_store_and_forward :
                      sfstate sf_init sf_arrive sf_finish sf_poll h
     = expected_events (fun p => {| rs_status := cp_status p; rs_headers := cp_fields p |}) (fun t : hmap => t) m.
 Proof.
-  exact (response_fidelity ref_encode_section ref_decode_section sfstate sf_init sf_arrive sf_finish sf_poll sf_done
+  exact (response_fidelity no_settings_check ref_encode_section ref_decode_section sfstate sf_init sf_arrive sf_finish sf_poll sf_done
            ref_section_roundtrip (fun h items s Hok Hrun Hd _ _ => sf_reader_law h items s Hok Hrun Hd)).
 Qed.
 
@@ -202,7 +204,7 @@ Theorem request_fidelity_reference_reader :
                      rstate ref_init ref_arrive ref_fin ref_poll h
     = expected_events c12_norm_request (fun t : hmap => t) m.
 Proof.
-  exact (request_fidelity ref_encode_section ref_decode_section rstate ref_init ref_arrive ref_fin ref_poll ref_done
+  exact (request_fidelity no_settings_check ref_encode_section ref_decode_section rstate ref_init ref_arrive ref_fin ref_poll ref_done
            ref_section_roundtrip ref_reader_law_merged).
 Qed.
 
@@ -218,6 +220,40 @@ Theorem response_fidelity_reference_reader :
                      rstate ref_init ref_arrive ref_fin ref_poll h
     = expected_events (fun p => {| rs_status := cp_status p; rs_headers := cp_fields p |}) (fun t : hmap => t) m.
 Proof.
-  exact (response_fidelity ref_encode_section ref_decode_section rstate ref_init ref_arrive ref_fin ref_poll ref_done
+  exact (response_fidelity no_settings_check ref_encode_section ref_decode_section rstate ref_init ref_arrive ref_fin ref_poll ref_done
            ref_section_roundtrip ref_reader_law_merged).
+Qed.
+
+(* ---------- every layer h3's own: C12 header mapping, C11 stateless QPACK, C14 writer, C02 + C03 FrameStream and
+   RequestStream (server role for the request, client role for the response).  Closed. ---------- *)
+Theorem request_fidelity_h3 :
+  forall (grease : option N) (m : message c12_request hmap) (ks : list N) (b : bytes) (h : list hevent) items s,
+    request_head_ok (m_head m) -> Forall block_ok (m_pieces m) ->
+    match m_trailers m with Some t => trailers_ok t | None => True end ->
+    match grease with Some g => g < 148764065110560899 | None => True end ->
+    wire c12_request hmap c12_fields_of_request c12_fields_of_trailers c11_encode_section c14_wire_write grease m ks = Some b ->
+    hist_ok h = true -> hist_flat h = b ->
+    rx_run c03_state c03_arrive c03_fin (c03_poll RequestStream.RServer) h c03_init = (items, s) -> c03_done s = true ->
+    receiver_outcome request hmap c12_request_of_fields c12_trailers_of_fields c11_decode_section
+                     c03_state c03_init c03_arrive c03_fin (c03_poll RequestStream.RServer) h
+    = expected_events c12_norm_request (fun t : hmap => t) m.
+Proof.
+  exact (request_fidelity FrameDec.settings_verdict c11_encode_section c11_decode_section c03_state c03_init c03_arrive c03_fin
+           (c03_poll RequestStream.RServer) c03_done c11_section_law (c03_reader_law RequestStream.RServer)).
+Qed.
+
+Theorem response_fidelity_h3 :
+  forall (grease : option N) (m : message c12_response hmap) (ks : list N) (b : bytes) (h : list hevent) items s,
+    response_head_ok (m_head m) -> Forall block_ok (m_pieces m) ->
+    match m_trailers m with Some t => trailers_ok t | None => True end ->
+    match grease with Some g => g < 148764065110560899 | None => True end ->
+    wire c12_response hmap c12_fields_of_response c12_fields_of_trailers c11_encode_section c14_wire_write grease m ks = Some b ->
+    hist_ok h = true -> hist_flat h = b ->
+    rx_run c03_state c03_arrive c03_fin (c03_poll RequestStream.RClient) h c03_init = (items, s) -> c03_done s = true ->
+    receiver_outcome response hmap c12_response_of_fields c12_trailers_of_fields c11_decode_section
+                     c03_state c03_init c03_arrive c03_fin (c03_poll RequestStream.RClient) h
+    = expected_events (fun p => {| rs_status := cp_status p; rs_headers := cp_fields p |}) (fun t : hmap => t) m.
+Proof.
+  exact (response_fidelity FrameDec.settings_verdict c11_encode_section c11_decode_section c03_state c03_init c03_arrive c03_fin
+           (c03_poll RequestStream.RClient) c03_done c11_section_law (c03_reader_law RequestStream.RClient)).
 Qed.
